@@ -10,7 +10,7 @@ class IterCheck(PropCheck):
     assumptions = [
         "sequential consistency: `closed` and the SignalOnly slots are SeqCst (checked from the regenerated orderings); DRF-SC trusted",
         "the self-pipe is a byte counter: a wake on a full pipe is lost (EAGAIN), recv drains up to 1024 bytes; capacity measured on an identical socket pair each run",
-        "readiness callbacks: blocking = a one-byte read enabled iff a byte is present; non-blocking = `false` arms a notification that fires when a byte is present (contract of mio/tokio/async-io, not modelled further)",
+        "readiness callbacks: blocking = a one-byte read enabled iff a byte is present; non-blocking = `false` arms a notification that fires when a byte is present (contract of mio/tokio/async-io; exercised against the real libraries by the operation-level front-end probes, not modelled further)",
         "deliveries are simulated calls of the real dispatcher running the instance's real action; registry steps are filtered out of these traces (covered by C01-C04)",
     ]
 
@@ -84,12 +84,22 @@ class IterCheck(PropCheck):
                 failures.append({"kind": "violation", "key": "C10:stress",
                                  "what": "records handed through the per-signal channel of the info-carrying exfiltrators are not the delivered ones in order (unscheduled stress run, sends nested in a real SIGUSR1 handler): " + "; ".join(mine[:3]),
                                  "payload": {"stress": stress, "queue": False, "replay_cmd": "harness/target/debug/sighook-harness channel-stress 1500"}})
+        # the front ends themselves (Signals::pending / wait / forever, mio readiness, the tokio and
+        # async-std streams and their wakers), driven by real raise() and compared with L8 run sequentially
+        nfe = 0
+        if self.profile == "mixed" or self.pid == "C11":
+            from . import fe
+            kinds = {"C09": ["signals", "mio", "tokio", "asyncstd"], "C10": ["signals", "mio"], "C11": ["tokio", "asyncstd", "signals"]}[self.pid]
+            if not getattr(self, "_fe_done", False):
+                nfe, fdist, ffail = fe.stage(self.pid, kinds, tier, rng)
+                dist.update(fdist)
+                failures += ffail
         uniq = {}
         for f in failures:
             uniq.setdefault(f["key"], f)
-        return {"evaluations": len(results) + nq, "distinct_nontrivial": nontrivial,
-                "queue_exfiltrator_scenarios": nq,
-                "rule": "random scenarios on the real SignalDelivery / SignalIterator (SignalOnly): 1-2 delivery threads (simulated deliveries of watched signals through the real dispatcher and action), one consumer (style A: wait/pending; style B: poll_signal with a non-blocking callback / forever with a blocking one), optional close() threads, optionally a pre-filled self-pipe; PRNG schedule at every atomic operation, send/recv and callback; compared step by step with the Lean L8 model; monitors on the implementation trace; non-trivial = at least one signal yielded; for C09/C10 additionally scenarios with the queueing exfiltrator WithRawSiginfo (repeated deliveries of one signal, unique id per delivery; implementation judged by the property monitors only: no record stranded when poll answers Pending or the consumer parks; every yielded record is one delivered record, once)",
+        return {"evaluations": len(results) + nq + nfe, "distinct_nontrivial": nontrivial,
+                "queue_exfiltrator_scenarios": nq, "frontend_blocks": nfe,
+                "rule": "random scenarios on the real SignalDelivery / SignalIterator (SignalOnly): 1-2 delivery threads (simulated deliveries of watched signals through the real dispatcher and action), one consumer (style A: wait/pending; style B: poll_signal with a non-blocking callback / forever with a blocking one), optional close() threads, optionally a pre-filled self-pipe; PRNG schedule at every atomic operation, send/recv and callback; compared step by step with the Lean L8 model; monitors on the implementation trace; non-trivial = at least one signal yielded; for C09/C10 additionally scenarios with the queueing exfiltrator WithRawSiginfo (repeated deliveries of one signal, unique id per delivery; implementation judged by the property monitors only: no record stranded when poll answers Pending or the consumer parks; every yielded record is one delivered record, once); plus operation-level probes of the front ends in forked children with real raise(): Signals::pending / wait / forever().next() (bursts whose wake-up bytes are multiples of the 16-byte has_signals chunk and beyond the 1024-byte flush), signal-hook-mio readiness under a real mio::Poll, signal-hook-tokio and signal-hook-async-std poll_next with a flag waker (Pending must be followed by a waker call once a signal arrives or close() is called), each compared with the L8 model run sequentially and judged by the monitors",
                 "samples": [{"scenario": results[0]["scenario"], "trace": [l for l in results[0]["impl"] if " cas " not in l or "= ok" in l][:16]}] if results else [],
                 "traces_validated_against_impl": len(results), "steps_compared": steps, "distribution": dist,
                 "failures": list(uniq.values())}
@@ -99,6 +109,9 @@ class IterCheck(PropCheck):
             import subprocess
             p = subprocess.run([core.HARNESS_BIN, "channel-stress", "3000"], capture_output=True, text=True, timeout=120)
             return "PROBLEM" in p.stdout or p.returncode != 0, p.stdout
+        if payload.get("frontend"):
+            from . import fe
+            return fe.replay(self.pid, payload)
         if payload.get("queue"):
             from . import itq
             r = itq.run_one([l for l in payload["scenario"] if not l.startswith("seed")] + ["schedule " + " ".join(payload["schedule"])])
@@ -135,6 +148,7 @@ class C11(IterCheck):
             pid = "C11"
             profile = "mixed"
         m = Mixed()
+        m._fe_done = True
         m.proof_broken = getattr(self, "proof_broken", None)
         mres = m.correspond(tier, seed, rng)
         res["failures"] += mres["failures"]
